@@ -263,6 +263,8 @@ var c08Shapes = [][8]uint16{
 var c08Near = []string{"::", "::1", "1::", "1::8", "1:2:3:4:5:6:7:8", "1:2:3:4:5:6:7", "1:2:3:4:5:6:7:8:9", ":1", "1:", ":::", "::1::", "1::2::3", "1:::2", "12345::", "::12345", "::g", "g::", "::1.2.3.4", "::1.2.3", "::1.2.3.4.5",
 	"::01.2.3.4", "::1.02.3.4", "::1.2.3.256", "::1.2.3.4:5", "1:2:3:4:5:6:1.2.3.4", "1:2:3:4:5:6:7:1.2.3.4", "1:2:3:4:5:1.2.3.4", "::1.2.3.", "::.1.2.3", "::1..2.3", "1.2.3.4", "::ffff:1.2.3.4", "::FFFF:1.2.3.4", "0:0:0:0:0:0:0:0",
 	"0:0:0:0:0:0:0:0:", "::0:0:0:0:0:0:0", "::0:0:0:0:0:0:0:0", "1:2:3:4:5:6:7::", "::2:3:4:5:6:7:8", "1:2:3:4::5:6:7:8", "1:2:3::5:6:7:8", "1::8:", "", " ", "::%31", "%3A%3A1", "::1%", "::1%25eth0", "::x", "0x1::", "::-1", "::+1", "1:2:3:4:5:6:7:8.", "::1.2.3.4.", "::1.2.3.04",
+	"::1.2.3.18446744073709551617", "::1.2.3.4294967297", "::1.2.3.65537", "::18446744073709551617.2.3.4", "1:2:3:4:5:6:1.2.3.18446744073709551620", "::1.2.3.00000000000000000000004", "::1.2.3.1e1",
+	"::\uff41", "1:2:3:4:5:6:7:\uff26", "::\uff11", "::\u0663", "\uff11::", "::1.2.3.\uff14", "::\u0661.2.3.4", "::a\u0300", "::\u212a", "::\u0131", "\uff1a\uff1a1", "::1\uff0e2.3.4",
 	"1:2:3:4:5:6:1.2.3.4.5", "1:2:3:4:5:6:1.2.3.4.", "1:2:3:4:5:6:1.2.3.4:5", "1:2:3:4:5:6:1.2.3.4:", "1:2:3:4:5:6:7:8:", "1:2:3:4:5:6:7:8.", "1:2:3:4:5:6:7:8.9", "1:2:3:4:5:6:7:8:9:a", "1:2:3:4:5:6:255.255.255.255.255", "1:2:3:4:5:6:7:1.2", "::1.2.3.4.5.6.7.8", "1:2:3:4:5:6:7:8::9",
 	"::00000", "::0000", "0::0", "0:0::0:0", "::1\t", "::a:b:c:d:e:f:1", "a:b:c:d:e:f::1.2.3.4", "::a.2.3.4", "::1.a.3.4", "1:2:3:4:5:6:7:8::", "::1.2", "::255.255.255.255", "::256.1.1.1", "::1.2.3.4.5.6"}
 
@@ -312,12 +314,12 @@ func Gen08(t *rapid.T) Case08 {
 			inner = gen.Pick(t, "near", c08Near)
 		} else {
 			n := rapid.IntRange(0, 20).Draw(t, "len")
-			const alphabet = "::::0011aAfF..9%gx"
-			b := make([]byte, n)
-			for i := range b {
-				b[i] = alphabet[rapid.IntRange(0, len(alphabet)-1).Draw(t, "ch")]
+			alphabet := []string{":", ":", ":", ":", "0", "0", "1", "1", "a", "A", "f", "F", ".", ".", "9", "%", "g", "x", "\uff41", "\uff26", "\uff11", "\u0663", "18446744073709551617", "4294967297", "256"}
+			var sb strings.Builder
+			for i := 0; i < n; i++ {
+				sb.WriteString(alphabet[rapid.IntRange(0, len(alphabet)-1).Draw(t, "ch")])
 			}
-			inner = string(b)
+			inner = sb.String()
 		}
 	default: // mutation of a valid spelling
 		var v [8]uint16
@@ -331,7 +333,7 @@ func Gen08(t *rapid.T) Case08 {
 		if rapid.IntRange(0, 2).Draw(t, "atEnd") == 0 {
 			pos = len(inner) // appended at the very end: one piece / part too many, trailing separators
 		}
-		ins := gen.Pick(t, "ins", []string{":", "::", "0", "00000", "g", ".", ".1", "1.2.3.4", "%", "]", "[", "ffff:", ":0", ".5", ":9", ":1.2.3.4", ".255.255", "::1"})
+		ins := gen.Pick(t, "ins", []string{":", "::", "0", "00000", "g", ".", ".1", "1.2.3.4", "%", "]", "[", "ffff:", ":0", ".5", ":9", ":1.2.3.4", ".255.255", "::1", "\uff41", "\uff11", "\u0663", "18446744073709551616", "4294967296", "0000000000000000000000"})
 		if rapid.IntRange(0, 2).Draw(t, "del") == 0 && pos < len(inner) {
 			inner = inner[:pos] + inner[pos+1:]
 		} else {
